@@ -14,6 +14,7 @@ import NdnProofs.Props.C14Lvs
 #print axioms Ndn.C14.validate_sound_lvs
 #print axioms Ndn.C14.validate_complete_lvs
 #print axioms Ndn.C14.verdict_iff_chain_lvs
+#print axioms Ndn.C14.verdict_iff_chain_compiled
 #print axioms Ndn.C14.system_verdict_iff_chain_lvs
 #print axioms Ndn.C14.lvs_chain_keys_matched
 #print axioms Ndn.C14.chain_never_through_unmatched_key
